@@ -574,6 +574,21 @@ def _isnan(i, args, kw, node, fr):
     return False
 
 
+@model("numpy.isfinite", "isfinite pointwise (opaque float payloads: predicate isfinite, which excludes NaN; 0.0 and 1.0 are finite; reals: always finite)")
+def _isfinite(i, args, kw, node, fr):
+    a = args[0]
+    from .arrays import isfinite as _fin
+    if isinstance(a, Arr):
+        check_live(a, node)
+        f = (lambda x: _fin(x)) if a.elem_sort == Val else (lambda x: z3.BoolVal(True))
+        if a.ndim == 1:
+            return define1(i, a.shape[0], Bool, lambda k: f(z3.Select(a.data, k)), "isfinite_arr", alts=[lambda k: z3.Select(a.data, k)])
+        return define2(i, a.shape[0], a.shape[1], Bool, lambda r, c: f(a.at(r, c)), "isfinite_arr")
+    if is_z3(a) and a.sort() == Val:
+        return _fin(a)
+    return True
+
+
 # ------------------------------------------------------------------ reshape / flatten / axis reductions on bool
 class FlatV:
     """row-major flattening of a 2-D array with a CONCRETE number of columns: element k = a[k // c][k % c]"""
